@@ -40,6 +40,9 @@ type serveOpts struct {
 	warnings         []string
 }
 
+// shutdownTimeout is how long requests in flight may take to finish after a termination signal.
+const shutdownTimeout = 30 * time.Second
+
 func newServeCmd(root *rootOpts) *cobra.Command {
 	opts := serveOpts{
 		root: root,
@@ -142,7 +145,10 @@ func (opts *serveOpts) run(cmd *cobra.Command, args []string) error {
 		case <-ctx.Done():
 		}
 		opts.root.log.Debug("Interrupt received, shutting down")
-		err := s.Shutdown(ctx)
+		// requests in flight get a limited time to finish, a client that never completes its request does not keep the server running
+		sctx, scancel := context.WithTimeout(ctx, shutdownTimeout)
+		err := s.Shutdown(sctx)
+		scancel()
 		if err != nil {
 			opts.root.log.Warn("graceful shutdown failed", "err", err)
 		}
